@@ -38,7 +38,7 @@ struct Case {
 
 static Case gen_case() {
   Case c;
-  c.cfg = gen_config(/*many_blocks*/ chance(85), /*allow_pool*/ false);
+  c.cfg = gen_config(/*many_blocks*/ chance(85), /*allow_pool*/ true);
   c.cfg.by_path = false;
   KeyUniverse u = gen_universe();
   c.entries = gen_table(c.cfg.eff_block_size(), 4 + current_size() * 2, /*allow_huge*/ chance(10), &u);
